@@ -30,7 +30,8 @@ type Violation struct {
 	Detail   string      `json:"detail"`
 	Expected interface{} `json:"expected,omitempty"`
 	Observed interface{} `json:"observed,omitempty"`
-	Known    string      `json:"known,omitempty"` // id of the known finding whose predicate this case matches
+	Known    string      `json:"known,omitempty"`    // id of the known finding whose predicate this case matches
+	Nominate bool        `json:"nominate,omitempty"` // a budget was exceeded: only a re-run alone, with budgets lifted, decides
 }
 
 type Property interface {
